@@ -159,7 +159,7 @@ def _vm(env):
 
 
 def _once(r, entry, text, timeout):
-    if entry in ("preprocess", "preprocess__") and "__COUNTER" in text:
+    if entry in ("preprocess", "preprocess__") and "__" in text.replace("\\\n", "").replace("\\\r\n", ""):
         # __COUNTER__ is documented per-VM state: "the same input" means the same text in the same state, so the counter is put back first
         r.cmd(dict(op="preprocess", vm=0, text="__COUNTER_RESET__", fresh=True, file="/fz/reset.sqf"), timeout=timeout)
     if entry == "preprocess":
